@@ -297,6 +297,12 @@ func main() {
 	rbr := parse(rp("replication/binlog_event_rbr.go"))
 	out.WriteString("namespace GV.Facts\n")
 
+	// 0. file level: the list of non-test Go files, and per file the inventory of top-level declarations and a digest
+	// of the whole normalised file (comments, log calls and error texts removed). Catches what no function-level
+	// fingerprint looks at: new package-level state, init functions, new files, edits of unlisted helpers.
+	fileFacts(repo)
+
+
 	// 2. dig2bytes
 	if v := findVar(rbr, "dig2bytes"); v != nil {
 		cl, ok := v.(*ast.CompositeLit)
@@ -973,4 +979,73 @@ func fp(s string) string {
 	x := hex.EncodeToString(h[:8])
 	fmt.Fprintf(&sidecar, "%s\t%s\n", x, s)
 	return leanStr(x)
+}
+
+func fileFacts(repo string) {
+	var files []string
+	for _, dir := range []string{"", "replication"} {
+		ents, err := os.ReadDir(filepath.Join(repo, dir))
+		if err != nil {
+			continue
+		}
+		for _, e := range ents {
+			n := e.Name()
+			if e.IsDir() || !strings.HasSuffix(n, ".go") || strings.HasSuffix(n, "_test.go") || n == "verif_export.go" {
+				continue
+			}
+			files = append(files, filepath.Join(dir, n))
+		}
+	}
+	sort.Strings(files)
+	var q []string
+	for _, f := range files {
+		q = append(q, leanStr(f))
+	}
+	fmt.Fprintf(&out, "def goFiles : List String := [%s]\n", strings.Join(q, ", "))
+	for _, f := range files {
+		af, err := parser.ParseFile(fset, filepath.Join(repo, f), nil, 0)
+		if err != nil {
+			fail("cannot parse %s", f)
+			continue
+		}
+		var inv []string
+		var body strings.Builder
+		for _, d := range af.Decls {
+			switch v := d.(type) {
+			case *ast.FuncDecl:
+				name := v.Name.Name
+				if v.Recv != nil && len(v.Recv.List) > 0 {
+					name = "(" + src(v.Recv.List[0].Type) + ")." + name
+				}
+				inv = append(inv, "func "+name)
+				v.Doc = nil
+			case *ast.GenDecl:
+				v.Doc = nil
+				for _, sp := range v.Specs {
+					switch x := sp.(type) {
+					case *ast.ValueSpec:
+						for _, n := range x.Names {
+							inv = append(inv, strings.ToLower(v.Tok.String())+" "+n.Name)
+						}
+					case *ast.TypeSpec:
+						inv = append(inv, "type "+x.Name.Name)
+					case *ast.ImportSpec:
+						inv = append(inv, "import "+x.Path.Value)
+					}
+				}
+			}
+			normalise(d)
+			body.WriteString(src(d))
+			body.WriteByte('\n')
+		}
+		sort.Strings(inv)
+		var qi []string
+		for _, x := range inv {
+			qi = append(qi, leanStr(x))
+		}
+		id := strings.NewReplacer("/", "_", ".go", "", ".", "_").Replace(f)
+		fmt.Fprintf(&out, "def inv_%s : List String := [%s]\n", id, strings.Join(qi, ", "))
+		h := sha256.Sum256([]byte(body.String()))
+		fmt.Fprintf(&out, "def fileDigest_%s : String := %s\n", id, leanStr(hex.EncodeToString(h[:8])))
+	}
 }
